@@ -122,6 +122,12 @@ pub mod fmodel {
         acc
     }
 
+    /// constant stand-in: every record "checks"; used only where the control flow must stay concrete (iteration), so that
+    /// the iterator's offset arithmetic is decided with symbolic contents but no checksum case split
+    pub fn const_crc(_len_bytes: &[u8; 4], _header: &[u8], _data: &[u8]) -> u32 {
+        0x5a5a_a5a5
+    }
+
     /// crc32fast without the cpuid dispatch (the SIMD path is not encodable): the table-driven baseline
     pub fn baseline_hasher() -> crc32fast::Hasher {
         crc32fast::Hasher::internal_new_baseline(0, 0)
@@ -156,6 +162,19 @@ macro_rules! fs_harness {
         #[kani::stub(std::fs::File::sync_data, fmodel::sync_data)]
         #[kani::stub(std::fs::OpenOptions::open, fmodel::open)]
         #[kani::stub(crate::calculate_crc32c, fmodel::cheap_crc)]
+        fn $name() $body
+    };
+    (konst, $name:ident, $unwind:literal, $body:block) => {
+        #[kani::proof]
+        #[kani::unwind($unwind)]
+        #[kani::stub(<std::fs::File as std::io::Write>::write, fmodel::write)]
+        #[kani::stub(<std::fs::File as std::io::Write>::flush, fmodel::flush)]
+        #[kani::stub(<std::fs::File as std::io::Seek>::seek, fmodel::seek)]
+        #[kani::stub(<std::fs::File as std::os::unix::fs::FileExt>::read_at, fmodel::read_at)]
+        #[kani::stub(<std::fs::File as std::os::unix::fs::FileExt>::write_at, fmodel::write_at)]
+        #[kani::stub(std::fs::File::sync_data, fmodel::sync_data)]
+        #[kani::stub(std::fs::OpenOptions::open, fmodel::open)]
+        #[kani::stub(crate::calculate_crc32c, fmodel::const_crc)]
         fn $name() $body
     };
 }
